@@ -1,6 +1,7 @@
 package main
 
 import (
+	"io"
 	"bytes"
 	"fmt"
 	"sort"
@@ -383,10 +384,15 @@ func realTicks(fr [][2]uint64) uint32 {
 	}
 	w.Rest(value)
 	w.Close()
+	if _, err := w.WriteTo(io.Discard); err != nil {
+		return tooLong // the writer refuses a piece no delta time can span (D22 fix)
+	}
 	var t smf.Track
 	set.Set().Get(0).Apply(&t)
 	return t[len(t)-1].Delta
 }
+
+const tooLong = ^uint32(0)
 
 func streamTicks() {
 	s, done := openStream("ticks")
@@ -430,7 +436,12 @@ func streamTicks() {
 			fr[j] = gen()
 			items = append(items, fmt.Sprintf("%d %d", fr[j][0], fr[j][1]))
 		}
-		s.add("ticks "+pList(items), fmt.Sprintf("ok %d", realTicks(fr)))
+		if t := realTicks(fr); t == tooLong {
+			s.add("ticks "+pList(items), "toolong")
+			s.stat("too-long")
+		} else {
+			s.add("ticks "+pList(items), fmt.Sprintf("ok %d", t))
+		}
 	}
 	// tempo payloads through gomidi
 	for i := 0; i < pick(2000, 40000); i++ {
